@@ -112,7 +112,7 @@ def audit(prop, log):
         res["ok"] = False
         res["problems"].append("axiom audit failed to run: " + out[-500:])
         return res
-    for m in re.finditer(r"'RQ\.Props\.%s\.([^']+)' (does not depend on any axioms|depends on axioms: \[([^\]]*)\])" % prop, out):
+    for m in re.finditer(r"'RQ\.Props\.%s\.(\S+?)' (does not depend on any axioms|depends on axioms: \[([^\]]*)\])" % prop, out):
         axs = [a.strip() for a in (m.group(3) or "").replace("\n", " ").split(",") if a.strip()]
         res["axioms"][m.group(1)] = axs
         bad = [a for a in axs if a not in ALLOWED_AXIOMS]
